@@ -5,23 +5,34 @@ from vlib import core, tracecheck
 LEVEL = "model_checking"
 TECHNIQUE = ("TLA+ model of the serial run loop composed with the HTTP handlers of monitoring2 (one access pattern per endpoint class) model-checked "
              "with TLC; TLC-emitted request/gate schedules replayed on a real Monitor serving HTTP on loopback next to a real SerialEngine, the "
-             "mutex-ordered log judged by TLC against the abstract conflict rule; Go race detector as a second oracle")
+             "mutex-ordered log judged by TLC against the abstract conflict rule (access timing, and content: a response must show a state version that was "
+             "current at a pause point inside the request); every variant of /api/field (plain, slice_offset, slice_limit, both, through a map, through an "
+             "interface, missing path, malformed paging) issued while a handler is parked mid-event after a transient write; Go race detector as a second oracle")
 LEVEL_TEXT = ("Monitor.tla composes the run loop of timing/serialengine.go (chk, flag load, wait, dispatch lock, handler start, handler end) with HTTP "
               "handler processes following monitor.go (pause/continue/state under engineControlMu, component/field through pauseForInspection which keeps "
-              "the mutex until it has continued, now/buffers/progress/tick without any pause); TLC explores every interleaving of 2-3 overlapping clients for "
+              "the mutex until it has continued -- field in three classes: plain, paged (slice_offset/slice_limit: the monitor's own walk and page), missing path "
+              "(the 404 is the result of a walk over component state) --, now/buffers/progress/tick without any pause); TLC explores every interleaving of 2-3 overlapping clients for "
               "the design's own invariants (mutex, enginePaused mirrors the engine flag, the engine stays held and no handler runs until the LAST "
-              "overlapping inspection finished, termination once left running) and classifies every endpoint class against the conflict rule. Two negative "
-              "controls must be refuted by TLC: the old flag-only Pause, and a pauseForInspection that does not keep the mutex across the inspection. TLC also "
+              "overlapping inspection finished, termination once left running) and classifies every endpoint class against the conflict rule. Three negative "
+              "controls must be refuted by TLC: the old flag-only Pause, a pauseForInspection that does not keep the mutex across the inspection, and a "
+              "/api/field that walks the component before pausing (EarlyWalk). TLC also "
               "emits every schedule a sequential client can realise (requests x gate passages); each is replayed on a real monitoring2.Monitor (HTTP, loopback) "
               "whose simulation handlers are gates. Overlapping requests are driven too: an inspection of a multi-megabyte field whose client stops reading "
               "(the handler stays inside the inspection, blocked on the socket) while further requests are issued; no handler may start in that window. The "
               "log (handler start/end, request/response, engine Pause/Continue, observed calls into simulation state, windows) is validated by TLC against "
-              "MonTrace.tla, and the final results are compared with an unmonitored run. A -race build runs each endpoint while the parked handler keeps "
+              "MonTrace.tla; the inspected state of the driver's component is versioned (event K writes a transient version, parks, writes its final version; "
+              "a slice behind a map and a slice behind an interface, both replaced as a whole) and every /api/field variant is issued at the mid gate, so "
+              "MonTrace also judges content: the version a response shows must have been current at a pause point inside the request. The final results are compared with an unmonitored run. A -race build runs each endpoint while the parked handler keeps "
               "rewriting the inspected state, with no harness-made ordering between requester and run loop; DATA RACE reports are attributed by stack frame.")
 LEVEL_NOTE = ("Interleavings are exhaustive in the model only (<=3 clients, <=3 events); on the real code a request is atomic for the controller "
               "(no gate inside monitor.go) except for the stalled large inspection, so only schedules with requests placed at the loop's gates, overlap "
               "scenarios and free-running runs are executed. component/field inspection is race-free since SerialEngine.Pause waits for the dispatch in "
               "flight (any conflict there is a new violation); now/tick/buffers/progress still take no pause: known findings keyed by (endpoint, class, symptom). "
+              "/api/field answers are judged per class: field, field_paged and field_missing (a 404 found by walking component state) must neither arrive while "
+              "the handler they started under is still executing nor show a transient / older / mixed version; malformed paging parameters (400) and an "
+              "unknown component name follow from the request text and the registration list alone, no simulation state, and may be answered at any time "
+              "(the unchanged code happens to pause first). Content is decoded only for the versioned map / interface paths. Paged variants are not in the "
+              "free-running and race parts (a map walk racing a map write is a Go fatal error, which would end the driver without a verdict). "
               "/api/tick is an intervention by design: results are compared up to the timing of the kicked component.")
 
 ENDPOINTS = ["pause", "continue", "state", "now", "tick", "component", "field", "buffers", "progress"]
@@ -52,6 +63,31 @@ def directed():
         for k in (1, 2, 3, 5):         # user pause raised at that label, endpoint one label later and again two later, then continue
             out.append([g] * k + [["req", "pause"], g, ["req", ep], g, ["req", ep], ["req", "state"], ["req", "continue"], g, ["req", ep]])
             out.append([g] * k + [["req", "pause"], ["req", ep], ["req", "pause"], ["req", "continue"], ["req", "continue"], g, g])
+    return out
+
+
+# /api/field in all its variants (class of Monitor.tla, concrete request of the driver).  field_badparams is not an
+# endpoint class of the model: its 400 follows from the parameter syntax alone (it may be answered at any time).
+FIELD_VARIANTS = [("field", "map_plain"), ("field", "iface_plain"),
+                  ("field_paged", "map_offset"), ("field_paged", "map_limit"), ("field_paged", "map_both"), ("field_paged", "iface_both"),
+                  ("field_paged", "key_absent_midevent"), ("field_paged", "direct"),
+                  ("field_missing", "map_key_paged"), ("field_missing", "index_paged"), ("field_missing", "plain"), ("field_missing", "map_key_plain"),
+                  ("field_badparams", "offset_syntax"), ("field_badparams", "limit_zero"), ("field_badparams", "offset_negative")]
+
+
+def directed_variants(q):
+    """Every variant of /api/field issued while a handler is parked mid-event after having written a TRANSIENT version of the
+    inspected state (label 2 = mid of event 1, 5 = mid of event 2), and at the other labels; alone, twice, and under a user pause."""
+    out = []
+    g = ["go"]
+    for ep, var in FIELD_VARIANTS:
+        r = ["req", ep, var]
+        for k in ((2, 5, 1) if q else range(0, 9)):
+            out.append([g] * k + [r] + [g] * 3)
+        out.append([g] * 2 + [["req", "pause"], r, g, g, r, ["req", "continue"], g, r, g])
+        if not q:
+            out.append([g] * 5 + [r, g, r, g, g, r])
+            out.append([g] * 4 + [["req", "pause"], g, r, g, r, ["req", "state"], ["req", "continue"], g, r])
     return out
 
 
@@ -154,7 +190,12 @@ def run_logged(ck, parts):
             seen[k] = c
             key = {"endpoint": c["endpoint"], "class": c["class"], "symptom": c["symptom"]}
             beh = behaviours[scn] if behaviours and scn < len(behaviours) else None
-            if c["how"] == "window_of_stalled_request":
+            if c["how"] == "response_content":
+                desc = ("%s: the response of a /api/%s request shows simulation state that was current at no pause point inside the request (a transient "
+                        "value written in the middle of an event, a value older than the request, or a mixture): the state was read, or a reference into it "
+                        "was captured, while an event handler was executing (%s); scenario %d, log line %d, schedule %s"
+                        % (label, c["endpoint"], c["class"], scn, c["line"], json.dumps(beh)))
+            elif c["how"] == "window_of_stalled_request":
                 desc = ("%s: an event handler %s while an overlapping /api/%s inspection was still serializing component state (%s): the engine was not "
                         "kept held until the last inspection finished; scenario %d, log line %d"
                         % (label, "started" if c["symptom"] == "handler_started_during_access" else "was running", c["endpoint"], c["class"], scn, c["line"]))
@@ -162,7 +203,8 @@ def run_logged(ck, parts):
                 desc = ("%s: endpoint class %s accessed simulation state (%s, %s) while an event handler was executing (%s); scenario %d, log line %d"
                         % (label, c["endpoint"], c["what"], c["how"], c["class"], scn, c["line"]))
             ck.report(key, desc,
-                      {"mode": label, "case": c, "schedule": beh, "payload": {k2: v2 for k2, v2 in payload.items() if k2 != "behaviours"}})
+                      {"mode": label, "case": c, "schedule": beh, "payload": {k2: v2 for k2, v2 in payload.items() if k2 not in ("behaviours", "run_until")},
+                       "driven_by": "RunUntil" if scn in (payload.get("run_until") or []) else "Run"})
         judge_outcomes(ck, out, label)
         if out.get("sample"):
             ck.sample({label: out["sample"][:16]})
@@ -262,14 +304,18 @@ def run(ck):
     n = ck.run_tlc(["monitor"], "Monitor", "Monitor_negoverlap.cfg", workers=2, timeout=600)
     if n.ok or n.violated != "InspectionHeld":
         raise core.Broken("negative control lost: a pauseForInspection that drops the control mutex during the inspection is not refuted by TLC (%s)" % n.summary())
-    ck.note("negative controls refuted by TLC: flag-only Pause (%s), control mutex not kept across overlapping inspections (%s)" % (h.violated, n.violated))
+    wk = ck.run_tlc(["monitor"], "Monitor", "Monitor_negwalk.cfg", workers=2, timeout=600)
+    if wk.ok or wk.violated != "NoConcurrentAccess":
+        raise core.Broken("negative control lost: a /api/field that walks the component before pauseForInspection is not refuted by TLC (%s)" % wk.summary())
+    ck.note("negative controls refuted by TLC: flag-only Pause (%s), control mutex not kept across overlapping inspections (%s), "
+            "field walk before the pause (%s)" % (h.violated, n.violated, wk.violated))
     c = ck.run_tlc(["monitor"], "Monitor", "Monitor_cases.cfg", workers=1, timeout=600)
     if not c.ok:
         raise core.Broken("Monitor_cases: %s %s" % (c.violated, c.error))
     model_cases = sorted({(x["endpoint"], x["class"], x["symptom"]) for x in c.tagged["CASE"]})
     ck.cov["model_conflict_classes"] = ["%s/%s/%s" % x for x in model_cases]
     ck.note("model: conflicting (endpoint, class): %s" % sorted({x[:2] for x in model_cases}))
-    if any(x[0] in ("component", "field", "pause", "continue", "state") for x in model_cases):
+    if any(x[0] in ("component", "field", "field_paged", "field_missing", "pause", "continue", "state") for x in model_cases):
         raise core.Broken("the model of the current design has a conflict for an endpoint class that pauses: %s" % model_cases)
     # 2. realisable schedules from TLC, replayed on the real monitor
     s = ck.run_tlc(["monitor"], "Monitor", "Monitor_sched_q.cfg" if q else "Monitor_sched_t.cfg", workers=4 if q else 8, timeout=1500)
@@ -282,9 +328,14 @@ def run(ck):
     ck.rng.shuffle(racy)
     ck.rng.shuffle(calm)
     chosen = racy[:100 if q else 1500] + calm[:50 if q else 800] + directed()
+    n0 = len(chosen)
+    chosen += directed_variants(q)
+    run_until = list(range(1, n0, 7)) + list(range(n0, len(chosen), 2))   # the same loop entered through RunUntil (time-boundary flow)
+    ck.cov["schedules_driven_by_RunUntil"] = len(run_until)
+    ck.cov["field_variant_schedules"] = len(directed_variants(q))
     free_eps = [e for e in ENDPOINTS if e != "tick"]   # tick's unsynchronised queue write is exercised only at gates
     (out, seen), (out2, _), (out3, _) = run_logged(ck, [
-        ("gated", dict(mode="gated", nwork=3, gap=4, behaviours=[[st[:2] for st in b if st[0] != "acc"] for b in chosen]), chosen),
+        ("gated", dict(mode="gated", nwork=3, gap=4, run_until=run_until, behaviours=[[st[:3] for st in b if st[0] != "acc"] for b in chosen]), chosen),
         # 3. free-running engine with a request stream
         ("free", dict(mode="free", nwork=60 if q else 200, gap=3, programs=6 if q else 60, requests=25 if q else 60, spin=300, endpoints=free_eps), None),
         # 3b. overlapping requests: a stalled multi-megabyte inspection A, requests B inside its window
